@@ -327,6 +327,42 @@ func checkC08(c *Ctx) error {
 			c.Sample(map[string]any{"valid": g.valid, "patterns": g.pats, "first_file": g.files[0].Content, "distinct_outputs": len(g.outSha), "distinct_reports": len(g.repSha), "runs": runs})
 		}
 	}
+	// absolute arguments, different working directories: the same argv must give the same report and file whatever the cwd
+	// (duplicate-pattern diagnostics name files: they must not be rendered relative to the cwd)
+	Par(len(groups), 16, func(gi int) {
+		g := groups[gi]
+		base := w.TempDir("c08a")
+		for _, f := range g.files {
+			_ = work.WriteFile(filepath.Join(base, f.Name), []byte(f.Content))
+		}
+		args := []string{"build"}
+		for _, p := range g.pats {
+			args = append(args, "-i", filepath.Join(base, p))
+		}
+		if gi%2 == 1 {
+			args = append(args, "-i", filepath.Join(base, "in", "a.yaml")) // a file matched by two absolute patterns
+		}
+		out := filepath.Join(base, "out.go")
+		args = append(args, "-o", out)
+		cwds := []string{base, filepath.Join(base, "in"), w.Dir, "/", filepath.Join(w.TempDir("c08c"), "x", "y")}
+		var first string
+		for k, cwd := range cwds {
+			_ = os.MkdirAll(cwd, 0o755)
+			_ = os.Remove(out)
+			res := work.Run(w.Bin, cwd, w.SaneEnv(), 120*time.Second, nil, args...)
+			b, _ := os.ReadFile(out)
+			obs := res.Stdout + "\n--stderr--\n" + res.Stderr + fmt.Sprintf("\n--exit %d\n--file--\n", res.Exit) + string(b)
+			c.Add("absolute_argument_runs", 1)
+			if k == 0 {
+				first = obs
+				continue
+			}
+			if obs != first {
+				c.Violate("report-depends-on-working-directory", fmt.Sprintf("group %d: same absolute arguments, cwd %q vs %q give different report/output\n%s", gi, cwds[0], cwd, firstDiff(first, obs)), map[string]string{"args.txt": strings.Join(args, " ")})
+				break
+			}
+		}
+	})
 	// key permutations
 	var pjobs []int
 	for gi, g := range groups {
